@@ -16,7 +16,7 @@ from ebpfcat.ethercat import ECCmd, EtherCat
 
 PROP = "C13"
 LEVEL = "model_checking"
-RULE = ("all argument lists: <= 3 format groups from the alphabet, each with "
+RULE = ("all argument lists: <= 3 (thorough: 4) format groups from the alphabet, each with "
         "values, the last optionally read-only, x raw-data alphabet x 2 "
         "commands; non-trivial = the request was sent; distinct = distinct "
         "argument list")
@@ -134,9 +134,10 @@ def run_case(case, res):
 
 def cases(ctx):
     out = []
-    gl = GROUPS if not ctx.quick else GROUPS[:7]
-    for n in range(0, 4):
-        for groups in itertools.product(gl, repeat=n):
+    gl = GROUPS
+    for n in range(0, 4 if ctx.quick else 5):
+        for groups in itertools.product(gl if n < 4 else GROUPS[::2],
+                                        repeat=n):
             if ctx.quick and n == 3 and len({g[0] for g in groups}) < 2:
                 continue
             for readonly in ((False, True) if n else (False,)):
